@@ -656,9 +656,136 @@ def cycle_cases(moddir):
 
 
 # ---------------------------------------------------------------------------------------------------------------------
+# recursion without an end through every construct that pushes a frame: must end in a REPORTED error within the harness budget
+
+REC_INVOKERS = ("call", "apply", "imports")
+# wrapper name -> (content of the template around the invocation @B@, top-level declarations; @K@ = number of the template)
+REC_WRAPPERS = {
+    "plain": ("@B@", ""),
+    "for-each": ("<xsl:for-each select='.'>@B@</xsl:for-each>", ""),
+    "for-each-sort": ("<xsl:for-each select='.'><xsl:sort select='.'/>@B@</xsl:for-each>", ""),
+    "variable-body": ("<xsl:variable name='v'>@B@</xsl:variable><xsl:copy-of select='$v'/>", ""),
+    "with-param-body": ("<xsl:call-template name='id'><xsl:with-param name='p'>@B@</xsl:with-param></xsl:call-template>", ""),
+    "param-default": ("<xsl:param name='q'>@B@</xsl:param><xsl:copy-of select='$q'/>", ""),
+    "attribute-set": ("<e xsl:use-attribute-sets='s@K@'/>", "<xsl:attribute-set name='s@K@'><xsl:attribute name='a'>@B@</xsl:attribute></xsl:attribute-set>"),
+    "fallback": ("<ext:unknown><xsl:fallback>@B@</xsl:fallback></ext:unknown>", ""),
+    "sort-key-global": ("<xsl:for-each select='.|*|@*|/'><xsl:sort select='$g@K@'/>x</xsl:for-each>", "<xsl:variable name='g@K@'>@B@</xsl:variable>"),
+    "global-body": ("<xsl:value-of select='$g@K@'/>", "<xsl:variable name='g@K@'>@B@</xsl:variable>"),
+    "literal-element": ("<e>@B@</e>", ""),
+    "xsl-element": ("<xsl:element name='e'>@B@</xsl:element>", ""),
+    "copy": ("<xsl:copy>@B@</xsl:copy>", ""),
+    "attribute-body": ("<e><xsl:attribute name='a'>@B@</xsl:attribute></e>", ""),
+    "comment-body": ("<xsl:comment>@B@</xsl:comment>", ""),
+    "pi-body": ("<xsl:processing-instruction name='p'>@B@</xsl:processing-instruction>", ""),
+    "message-body": ("<xsl:message>@B@</xsl:message>", ""),
+    "if": ("<xsl:if test='1'>@B@</xsl:if>", ""),
+    "choose-otherwise": ("<xsl:choose><xsl:when test='0'>n</xsl:when><xsl:otherwise>@B@</xsl:otherwise></xsl:choose>", ""),
+    "for-each-in-variable": ("<xsl:variable name='v'><xsl:for-each select='.'>@B@</xsl:for-each></xsl:variable><xsl:value-of select='$v'/>", ""),
+}
+REC_SOURCE = "<r><i/></r>"
+
+
+def recursion_cycle(steps, moddir, tag, offset=0):
+    """steps = [(wrapper, invoker), …]: template k does wrapper[invoker -> template k+1], the last one goes back to the first.
+    -> stylesheet text (an imported module is written under moddir when an invoker is 'imports')"""
+    n = len(steps)
+    tops, tmpls, imported = [], [], []
+    for k, (w, inv) in enumerate(steps, 1):
+        nxt = k % n + 1
+        if inv == "call":
+            b = "<xsl:call-template name='t%d'/>" % nxt
+        elif inv == "apply":
+            b = "<xsl:apply-templates select='.' mode='m%d'/>" % nxt
+        else:
+            # xsl:apply-imports: the imported rule of the same mode goes on to the next template
+            b = "<xsl:apply-imports/>"
+            if not imported:
+                # (rules for every mode: xsl:call-template keeps the current template rule, so xsl:apply-imports may run in any of the modes)
+                imported = ["<xsl:template match='*' mode='m%d'><xsl:apply-templates select='.' mode='m%d'/></xsl:template>" % (j, j % n + 1) for j in range(1, n + 1)]
+        body, top = REC_WRAPPERS[w]
+        tmpls.append("<xsl:template name='t%d' match='*' mode='m%d'>%s</xsl:template>" % (k, k, body.replace("@B@", b).replace("@K@", str(k))))
+        if top:
+            tops.append(top.replace("@B@", b).replace("@K@", str(k)))
+    imp = ""
+    if imported:
+        _os.makedirs(moddir, exist_ok=True)
+        path = _os.path.join(moddir, "rec_%s.xsl" % tag)
+        with open(path, "w") as f:
+            f.write(sty("".join(imported)))
+        imp = "<xsl:import href='file://%s'/>" % path
+    # `offset` extra xsl:for-each around the entry: shifts the parity / phase at which the pushes of the cycle meet the depth limit
+    entry = "<xsl:for-each select='.'>" * offset + "<xsl:apply-templates select='*' mode='m1'/>" + "</xsl:for-each>" * offset
+    return sty("<xsl:template match='/'>" + entry + "</xsl:template>"
+               "<xsl:template name='id'><xsl:param name='p'/><xsl:copy-of select='$p'/></xsl:template>" + "".join(tmpls),
+               extra_attrs=" xmlns:ext='urn:ext' extension-element-prefixes='ext'", top=imp + "".join(tops))
+
+
+def recursion_family(moddir, rng, thorough):
+    """-> list of (key, stylesheet): every wrapper x every invoker as a cycle of one template; every ordered pair of wrappers as a cycle
+    of two (quick: a sample drawn from the seed), with the invokers alternating"""
+    out = []
+    ws = list(REC_WRAPPERS)
+    for w in ws:
+        for inv in REC_INVOKERS:
+            out.append(("%s/%s" % (w, inv), recursion_cycle([(w, inv)], moddir, "1_%s_%s" % (w, inv))))
+    # cycles that mix counted (template) and uncounted-if-exempt (null: for-each, named template inside for-each) pushes, at every entry offset
+    for w in ("for-each", "for-each-sort", "for-each-in-variable", "literal-element"):
+        for inv in ("call", "apply"):
+            for off in (1, 2, 3):
+                out.append(("%s/%s@%d" % (w, inv, off), recursion_cycle([(w, inv)], moddir, "1_%s_%s_%d" % (w, inv, off), off)))
+    for j, steps in enumerate(([("for-each", "apply"), ("plain", "call")], [("for-each", "call"), ("plain", "apply")], [("for-each", "apply"), ("for-each", "call")],
+                               [("plain", "apply"), ("for-each", "apply")], [("for-each", "apply"), ("for-each", "apply"), ("plain", "apply")])):
+        for off in (0, 1, 2, 3, 4, 5):
+            out.append(("+".join("%s/%s" % st for st in steps) + "@%d" % off, recursion_cycle(steps, moddir, "m_%d_%d" % (j, off), off)))
+    pairs = [(a, b) for a in ws for b in ws]
+    if not thorough:
+        pairs = [("for-each", "plain"), ("plain", "for-each"), ("for-each", "for-each")] + [pairs[rng.below(len(pairs))] for _ in range(21)]
+    for j, (a, b) in enumerate(pairs):
+        ia = REC_INVOKERS[(j + len(a)) % 3]
+        ib = REC_INVOKERS[(j // 3 + len(b)) % 3] if thorough else REC_INVOKERS[rng.below(3)]
+        out.append(("%s/%s+%s/%s" % (a, ia, b, ib), recursion_cycle([(a, ia), (b, ib)], moddir, "2_%d" % j)))
+    return out
+
+
+# ---------------------------------------------------------------------------------------------------------------------
 # long substituted texts in error messages; URI bases x references
 
 MESSAGE_LENGTHS = (0, 1, 1023, 1024, 1025, 3000, 70000)
+
+
+NONASCII_CHARS = (("2byte", "\u00e9"), ("3byte", "\u6f22"), ("4byte", "\U00010400"), ("mixed", "a\u00e9\u6f22"))
+NONASCII_LENGTHS = (10, 100, 1000, 5000)
+
+
+def nonascii_message_cases():
+    """error messages that quote a NON-ASCII text of the input -> list of (key, kind, stylesheet, source, needle); the needle (the first
+    characters of the quoted text, or None where the text is not a legal name and the parser's own message is what comes back) must be in
+    the message; kind+'/calibrate' entries carry an ASCII text and tell whether this kind of message quotes its text at all"""
+    out = []
+    src = "<r><i>1</i></r>"
+
+    def trig(t):
+        return {
+            "message-text": sty("<xsl:template match='/'><o><xsl:message terminate='yes'>%s</xsl:message></o></xsl:template>" % t),
+            "unknown-function": sty("<xsl:template match='/'><o><xsl:value-of select='%s(1)'/></o></xsl:template>" % t),
+            "undefined-variable": sty("<xsl:template match='/'><o><xsl:value-of select='$%s'/></o></xsl:template>" % t),
+            "unknown-xsl-element": sty("<xsl:template match='/'><o><xsl:%s/></o></xsl:template>" % t),
+            "unknown-template": sty("<xsl:template match='/'><o><xsl:call-template name='%s'/></o></xsl:template>" % t),
+            "bad-qname": sty("<xsl:template match='/'><o><xsl:call-template name='%s:%s:x'/></o></xsl:template>" % (t, t)),
+            "bad-attribute-name": sty("<xsl:template match='/'><o><xsl:attribute name='%s %s'>v</xsl:attribute></o></xsl:template>" % (t, t)),
+            "include-missing": sty("<xsl:template match='/'><o/></xsl:template>", top="<xsl:include href='%s.xsl'/>" % t),
+            "document-missing": sty("<xsl:template match='/'><o><xsl:copy-of select=\"document('%s.xml')\"/></o></xsl:template>" % t),
+            "unknown-key": sty("<xsl:template match='/'><o><xsl:value-of select=\"key('%s', 1)\"/></o></xsl:template>" % t),
+            "unknown-extension-element": sty("<xsl:template match='/'><o><ext:%s/></o></xsl:template>" % t, extra_attrs=" xmlns:ext='urn:ext' extension-element-prefixes='ext'"),
+        }
+    for kind, s_ in trig("nnnnnnnnnn").items():
+        out.append(("%s/calibrate" % kind, kind, s_, src, "nnnnnn"))
+    for cn, ch in NONASCII_CHARS:
+        for n in NONASCII_LENGTHS:
+            t = (ch * n)[:n] if cn == "mixed" else ch * n
+            for kind, s_ in trig(t).items():
+                out.append(("%s/%s/%d" % (kind, cn, n), kind, s_, src, t[:4]))
+    return out
 
 
 def long_message_cases():
